@@ -18,6 +18,9 @@ package redisemu
 //@ ghost gSrcCount int
 //@ ghost gDstCount int
 //@ ghost gMoved bool
+// LPOS: the comparison budget (MAXLEN, or the list length) and the rank when the scan starts
+//@ ghost gMax0 int
+//@ ghost gRank0 int
 
 // nothing outside the list passed in is touched: every other list (and its nodes) is as before
 //@ define listsframe
